@@ -393,6 +393,124 @@ theorem overflow_shape (sp : Char → Bool) (extW extH : (List Char) → Rat) (l
           rw [h2] at h1; exact h1
         rw [this]; exact hpre
 
+
+theorem flatMap_prefix {α β : Type} (f : α → List β) {l₁ l₂ : List α} (h : l₁ <+: l₂) : l₁.flatMap f <+: l₂.flatMap f := by
+  obtain ⟨t, rfl⟩ := h
+  rw [List.flatMap_append]
+  exact List.prefix_append _ _
+
+/-- **A label's text survives rendering: unaltered apart from wrapping, or a marked prefix.** For every text, every
+extent function, every box size (zero and negative included), icon or not: `render_hbounded_lines` either fails its
+assertions, or returns the wrapped lines — whose words are exactly the words of the label, in order, and no `...` is
+added —, or returns `pre ++ [body ++ "..."]` where the words of `pre ++ [body]` are a *prefix* of the label's words:
+no word is lost in the middle, duplicated, reordered or invented, and a cut is always marked. -/
+theorem label_text_preserved (sp : Char → Bool) (hsp : sp ' ' = true) (extW extH : List Char → Rat)
+    (text : List (List Char)) (rectW rectH pad icon : Rat) (out : List (List Char))
+    (h : renderLabel sp extW extH text rectW rectH pad icon = some out) :
+    (out = hOverflowLines sp extW text rectW pad icon ∧ out.flatMap (words sp) = text.flatMap (words sp)) ∨
+    ∃ (pre : List (List Char)) (body : List Char), out = pre ++ [body ++ dots] ∧
+      (pre ++ [body]).flatMap (words sp) <+: text.flatMap (words sp) := by
+  unfold renderLabel at h
+  split at h
+  · cases h
+  · simp only at h
+    split at h
+    · cases h
+    · simp only [Option.some.injEq] at h
+      subst h
+      have hw : (hOverflowLines sp extW text rectW pad icon).flatMap (words sp) = text.flatMap (words sp) :=
+        wrap_preserves_words sp hsp extW _ text
+      rcases overflow_shape sp extW extH (hOverflowLines sp extW text rectW pad icon) rectH
+          (maxWidth extW (hOverflowLines sp extW text rectW pad icon)) with heq | ⟨pre, ov, body, heq, hpre, hbody⟩
+      · exact .inl ⟨heq, by rw [heq]; exact hw⟩
+      · refine .inr ⟨pre, body, heq, ?_⟩
+        rw [← hw]
+        refine List.IsPrefix.trans ?_ (flatMap_prefix (words sp) hpre)
+        simp only [List.flatMap_append, List.flatMap_cons, List.flatMap_nil, List.append_nil]
+        apply (List.prefix_append_right_inj _).mpr
+        rcases hbody with rfl | rfl
+        · exact List.prefix_refl _
+        · have hww := wrap_preserves_words sp hsp extW
+            ((((maxWidth extW (hOverflowLines sp extW text rectW pad icon)) - extW dots).floor : Int) : Rat)
+            (if ov = [] then [] else [ov])
+          have hov : (if ov = [] then [] else [ov]).flatMap (words sp) = words sp ov := by
+            by_cases ho : ov = []
+            · simp [ho, words_nil]
+            · simp [ho]
+          rw [hov] at hww
+          cases hl : wordWrap sp extW ((((maxWidth extW (hOverflowLines sp extW text rectW pad icon)) - extW dots).floor : Int) : Rat)
+              (if ov = [] then [] else [ov]) with
+          | nil => simp [words_nil]
+          | cons l ls =>
+            rw [hl] at hww
+            simp only [List.headD_cons]
+            rw [← hww, List.flatMap_cons]
+            exact List.prefix_append _ _
+
+/-- **Ellipsis iff the lines do not fit**: when every wrapped line fits into the height the result is the wrapped
+lines themselves; when one does not, the result ends in a line that ends in `...`. -/
+theorem ellipsis_iff_overflow (sp : Char → Bool) (extW extH : List Char → Rat) (lines : List (List Char)) (height maxW : Rat) :
+    ((fitLoop extH height 0 none lines).2 = none → vOverflow sp extW extH lines height maxW = lines) ∧
+    ((fitLoop extH height 0 none lines).2 ≠ none →
+      ∃ pre body, vOverflow sp extW extH lines height maxW = pre ++ [body ++ dots]) := by
+  constructor
+  · intro hn
+    unfold vOverflow
+    have hc := fitLoop_complete extH height lines 0 none hn
+    cases hf : fitLoop extH height 0 none lines with
+    | mk rendered o =>
+      rw [hf] at hn hc
+      simp only at hn hc
+      subst hn
+      exact hc
+  · intro hn
+    unfold vOverflow
+    cases hf : fitLoop extH height 0 none lines with
+    | mk rendered o =>
+      rw [hf] at hn
+      cases o with
+      | none => exact absurd rfl hn
+      | some ov =>
+        simp only
+        by_cases hr : rendered = []
+        · simp only [hr, if_true]
+          split
+          · exact ⟨[], ov, rfl⟩
+          · exact ⟨[], _, rfl⟩
+        · simp only [hr, if_false]
+          split
+          · exact ⟨rendered.dropLast, ov, rfl⟩
+          · exact ⟨rendered.dropLast, _, rfl⟩
+
+/-- several labels of one builder: concatenation, label by label -/
+theorem labels_rendered_in_order (sp : Char → Bool) (extW extH : List Char → Rat) (rectW rectH pad icon : Rat) :
+    ∀ (labels : List (List (List Char))) (out : List (List Char)),
+      renderLabels sp extW extH rectW rectH pad icon labels = some out →
+      ∃ parts : List (List (List Char)), out = parts.flatten ∧ parts.length = labels.length ∧
+        ∀ p ∈ parts.zip labels, renderLabel sp extW extH p.2 rectW rectH pad icon = some p.1 := by
+  intro labels
+  induction labels with
+  | nil => intro out h; simp only [renderLabels, Option.some.injEq] at h; subst h; exact ⟨[], rfl, rfl, fun _ hp => nomatch hp⟩
+  | cons t ts ih =>
+    intro out h
+    simp only [renderLabels] at h
+    cases h1 : renderLabel sp extW extH t rectW rectH pad icon with
+    | none => rw [h1] at h; simp at h
+    | some a =>
+      cases h2 : renderLabels sp extW extH rectW rectH pad icon ts with
+      | none => rw [h1, h2] at h; simp at h
+      | some b =>
+        rw [h1, h2] at h
+        simp only [Option.some.injEq] at h
+        subst h
+        obtain ⟨parts, hb, hlen, hall⟩ := ih b h2
+        refine ⟨a :: parts, by simp [hb], by simp [hlen], ?_⟩
+        intro p hp
+        simp only [List.zip_cons_cons, List.mem_cons] at hp
+        rcases hp with rfl | hp
+        · exact h1
+        · exact hall p hp
+
 /-! ## Non-vacuity -/
 
 -- an association edge with an overridden end marker in a class diagram: referenced = deployed
@@ -436,5 +554,14 @@ example : (renderS tables historyExample).map (fun d => d.defs.map (·.id)) =
     .ok ["DiamondMark_4A4A97".toList, "StickFigureSymbol".toList, "LogicalHumanActorSymbol".toList,
          "CustomGradient_C3E6FF_96B1DA".toList, "CustomGradient_DAFDFF_C6E6FF".toList] := by
   decide +kernel
+
+-- a label of five words in a box two lines high (extent: 1 per character wide, 1 high): two lines, the second cut and marked
+example : renderLabel (· = ' ') (fun s => (s.length : Rat)) (fun _ => 1) ["ab cd efg hi jk".toList] 6 2 0 0
+    = some ["ab cd".toList, "efg...".toList] := by decide +kernel
+-- the same label with enough room: all words, no dots
+example : renderLabel (· = ' ') (fun s => (s.length : Rat)) (fun _ => 1) ["ab cd efg hi jk".toList] 6 9 0 0
+    = some ["ab cd".toList, "efg hi".toList, "jk".toList] := by decide +kernel
+-- a box narrower than icon + padding: `assert max_text_width >= 0` fails
+example : renderLabel (· = ' ') (fun s => (s.length : Rat)) (fun _ => 1) ["ab".toList] 10 9 1 20 = none := by decide +kernel
 
 end Capella.Props.C18
